@@ -520,7 +520,8 @@ static inline int ubuf_block_prepend(struct ubuf *ubuf, int prepend)
     block->offset -= prepend;
     block->size += prepend;
     block->total_size += prepend;
-    block->cached_offset += prepend;
+    if (block->cached_ubuf != ubuf)
+        block->cached_offset += prepend;
     return UBASE_ERR_NONE;
 }
 
